@@ -788,7 +788,7 @@ while:
        L_WHILE '(' comma_expr ')'
             {
                 $<number>1 = context;
-                context = LOOP_CONTEXT;
+                context = LOOP_CONTEXT | (context & INSIDE_SPECIAL_BLOCK);
             }
         statement
             {
@@ -801,7 +801,7 @@ do:
         L_DO
             {
                 $<number>1 = context;
-                context = LOOP_CONTEXT;
+                context = LOOP_CONTEXT | (context & INSIDE_SPECIAL_BLOCK);
             }
         statement L_WHILE '(' comma_expr ')' ';'
             {
@@ -814,7 +814,7 @@ for:
         L_FOR '(' first_for_expr ';' for_expr ';' for_expr ')'
             {
                 $<number>1 = context;
-                context = LOOP_CONTEXT;
+                context = LOOP_CONTEXT | (context & INSIDE_SPECIAL_BLOCK);
             }
         statement
             {
@@ -894,7 +894,7 @@ foreach:
             {
                 $3.node->v.expr = $5;
                 $<number>1 = context;
-                context = LOOP_CONTEXT | LOOP_FOREACH;
+                context = LOOP_CONTEXT | LOOP_FOREACH | (context & INSIDE_SPECIAL_BLOCK);
             }
         statement
             {
@@ -933,7 +933,7 @@ first_for_expr:
         L_SWITCH '(' comma_expr ')'
             {
                 $<number>1 = context;
-                context &= LOOP_CONTEXT;
+                context &= (LOOP_CONTEXT | INSIDE_SPECIAL_BLOCK);
                 context |= SWITCH_CONTEXT;
                 $<number>2 = mem_block[A_CASES].current_size;
             }
@@ -1945,12 +1945,18 @@ add_error:
 return:
         L_RETURN ';'
             {
+                /* the frame of catch { } has no locals of its own to pop: F_RETURN there
+                 * would unwind the value stack by a stale count */
+                if (context & INSIDE_SPECIAL_BLOCK)
+                    yyerror("Cannot return out of catch { } or time_expression { }");
                 if (exact_types && !IS_TYPE(exact_types, TYPE_VOID))
                     yywarn("Non-void functions must return a value.");
                 CREATE_RETURN($$, 0);
             }
     |   L_RETURN comma_expr ';'
             {
+                if (context & INSIDE_SPECIAL_BLOCK)
+                    yyerror("Cannot return out of catch { } or time_expression { }");
                 if (exact_types && !compatible_types($2->type, exact_types & ~NAME_TYPE_MOD)) {
                     char buf[256];
                     char *end = EndOf(buf);
@@ -2630,7 +2636,7 @@ catch:
         L_CATCH
             {
                 $<number>$ = context;
-                context = SPECIAL_CONTEXT;
+                context = SPECIAL_CONTEXT | INSIDE_SPECIAL_BLOCK;
             }
         expr_or_block
             {
@@ -2662,7 +2668,7 @@ time_expression:
         L_TIME_EXPRESSION 
             {
                 $<number>$ = context;
-                context = SPECIAL_CONTEXT;
+                context = SPECIAL_CONTEXT | INSIDE_SPECIAL_BLOCK;
             }
         expr_or_block
             {
